@@ -2,8 +2,8 @@ package sym
 
 import (
 	"fmt"
-	"os"
 	"go/types"
+	"os"
 	"sort"
 
 	"golang.org/x/tools/go/ssa"
@@ -52,12 +52,12 @@ type shadow struct {
 }
 
 type scheduler struct {
-	m       *Machine
-	gs      []*goroutine
-	main    *goroutine
-	abort   interface{} // panic value to re-raise in main
-	exited  chan struct{}
-	shadows map[interface{}]*shadow
+	m        *Machine
+	gs       []*goroutine
+	main     *goroutine
+	abort    interface{} // panic value to re-raise in main
+	exited   chan struct{}
+	shadows  map[interface{}]*shadow
 	switches int
 }
 
